@@ -154,6 +154,8 @@ def g_binary(ch: core.Chooser, name: str) -> dict:
         n_el = int(numpy.prod(shape, dtype=int))
         fa = [base[i % 6] for i in range(n_el)]
         fb = [base[(i + 1) % 6] if i % 2 == 0 else base[(i - 1) % 6] for i in range(n_el)]
+        if name == "allclose":  # every pair close in numpy's reading, none in the mirrored one
+            fa, fb = [[9.0, 90.0][i % 2] for i in range(n_el)], [[10.0, 100.0][i % 2] for i in range(n_el)]
         return {"args": [{"const": model.lit_array(numpy.array(fa).reshape(shape), "float64"), "dress": 0},
                          {"const": model.lit_array(numpy.array(fb).reshape(shape), "float64"), "dress": 0}], "kwargs": {"rtol": 0.1, "atol": 0.0}}
     if name in ("isclose", "allclose") and ch.chance(0.5):
